@@ -113,6 +113,29 @@ class ModelEval:
             self.mask[name] = (v.left, type(v.ops[0]).__name__,
                                v.comparators[0], st)
             return
+        # a mask combined from several elementwise tests: the first
+        # comparison is kept as the mask, the other terms are reported
+        if isinstance(v, ast.BinOp) and isinstance(v.op, (ast.BitAnd,
+                                                          ast.BitOr)):
+            parts = []
+
+            def flat(e):
+                if isinstance(e, ast.BinOp) and isinstance(
+                        e.op, (ast.BitAnd, ast.BitOr)):
+                    flat(e.left)
+                    flat(e.right)
+                else:
+                    parts.append(e)
+            flat(v)
+            cmp_ = [p_ for p_ in parts if isinstance(p_, ast.Compare)
+                    and len(p_.ops) == 1]
+            if cmp_:
+                c0 = cmp_[0]
+                self.mask[name] = (c0.left, type(c0.ops[0]).__name__,
+                                   c0.comparators[0], st)
+                self.mask_extra = getattr(self, "mask_extra", []) + [
+                    (name, p_, st) for p_ in parts if p_ is not c0]
+                return
         if isinstance(v, ast.Call):
             cn = call_name(v) or ""
             short = cn.split(".")[-1]
@@ -460,6 +483,15 @@ def r2_off_contact(ctx):
                 ctx.check(ok or ok2, st2, f"{name}: contact mask {norm(st2)}",
                           "the contact mask is not (contact_point - delta) "
                           "> 0")
+        for mname, extra, st2 in getattr(me, "mask_extra", []):
+            ctx.fail(st2, f"{name}: contact mask has the extra term "
+                     f"{norm(extra)[:40]}",
+                     f"{mod.relpath}: the contact region is "
+                     f"(contact_point - delta) > 0 combined with "
+                     f"`{norm(extra)[:60]}`: points in contact that fail the "
+                     "extra test (e.g. within an absolute tolerance of the "
+                     "contact point - lengths are in metres) receive the "
+                     "bare baseline instead of the documented formula")
         # abscissa and contact point enter only through their difference
         for sym in (me.xname, "contact_point"):
             bad = me.ret_on.mentions(sym) or me.ret_off.mentions(sym)
